@@ -47,4 +47,8 @@ CLAIMED = {
   technique="TLA+ definitions of canonical rendering and parsing on byte arrays (NumText.tla, schoolbook arithmetic, no wide integers) whose laws (parse(render)=id in either case, canonical form, stop at terminator) are checked by TLC; recorded calls of every converter validated by TLC",
   text="The definitions are model-checked for round trip, canonical form and stop position over enumerated values x bases; then all igris_*toa / igris_ato*, itoa/utoa/ltoa/ultoa and the debug decimal/hex/binary printers run on all 8-bit values, 16-bit boundary+random (exhaustive in thorough), 32/64-bit boundary patterns and random values in bases 2..36; the whole guarded output window, returned pointer, parsed value and end offset of each call are judged against the definitions.",
   note=NOTE),
+ "C11": dict(
+  technique="TLA+ definition of ISO C strto* on byte arrays (StrTo.tla) with TLC-checked laws; TLA+ monitors for qsort/bsearch (SortSearch.tla) whose exactness is model-checked against independent definitions over all small arrays; recorded calls validated by TLC",
+  text="TLC checks the strto definition's laws over all texts up to length 4 over a 12-character alphabet x bases, and that the qsort/bsearch monitors accept exactly the sorted permutations / right answers over all arrays up to length 4 over 3 keys. The compat strtol/strtoul/strtoll/strtoull/strtoimax/strtoumax/atoi/atol run on texts generated around every base's alphabet edge, the 0x/0 prefixes and each type's overflow boundary; qsort on all arrays up to length 5 over 3 keys and random arrays with element sizes 1..32 (identity-carrying payloads, two comparators, varying pivots); bsearch on sorted arrays including empty ones with logged comparator arguments.",
+  note=NOTE),
 }
